@@ -16,6 +16,8 @@ ASSUMPTIONS = [
 ]
 SPEC = {
     'quick': [('K22', 'lend', 4),
+              ('K30', 'lend', 4),
+              ('K31', 'rb', 4),
               ('K7', 'lend', 4),
               ('K1', 'lend', 4),
               ('K15', 'lend', 4),
